@@ -652,6 +652,7 @@ def c14_dimred(n, seed, procs):
             if type(ex).__name__ == "SolverError": continue
             fails.append(dict(what="solve with %s raises %s" % (heur, type(ex).__name__), oracle="c14_dimred", input=desc, tags=["c14"])); continue
         if t is None: continue
+        if getattr(getattr(pep.wrapper, "prob", None), "status", "optimal") != "optimal": continue      # the solver did not reach its accuracy on the heuristic problem: inconclusive
         distinct.add(json.dumps(desc, sort_keys=True, default=str))
         sc = max(1.0, abs(t0)); small = max(abs(t0), 1e-12)
         f2, st2 = certificate_check(pep, t0 if mode == "primal" else t, info, desc, "c14_dimred")
@@ -689,7 +690,7 @@ def c14_dimred(n, seed, procs):
                     t2 = None
                     if type(ex).__name__ != "SolverError":
                         fails.append(dict(what="solve of the extended model with %s raises %s" % (heur, type(ex).__name__), oracle="c14_dimred", input=desc2, tags=["c14"]))
-                if t2 is not None:
+                if t2 is not None and getattr(getattr(pep.wrapper, "prob", None), "status", "optimal") == "optimal":
                     ev += 1
                     prim2 = float(pep.objective.eval())
                     if abs(t2 - t0) <= 1e-4 * sc and prim2 < t0 - tol - (2e-4 if heur.startswith("logdet") else 2e-5) * sc:
